@@ -906,8 +906,6 @@ def programs(tier, seed, ci, nc, count=3000, ops=('render', 'pvisit', 'ptruth', 
         if routes and p['route'] not in routes:
             continue
         for op in ops:
-            if op == 'pauto' and p['route'] in ('self', 'param'):
-                continue       # these routes need bound arguments: checked on the real side only (rt:progexec)
             yield (op, p)
 
 
